@@ -57,6 +57,30 @@ type Config struct {
 	// 0 on the tape = no preemption.
 	PreemptEvery int
 	PreemptNs    int64
+	// Site-directed stalls: a run designates roughly one in SlowSiteMod of the
+	// program's call sites (hash of "pkg.Func:line" and SlowSiteSalt) as slow. A
+	// task that has just performed a preemptible operation at a slow site is,
+	// by a tape choice (1 = stall, probability 1/SlowSiteCoin when recording), left parked
+	// for SlowSiteNs of simulated time, at most SlowSiteMax times per world and
+	// SlowSitePer times per site (0 = no per-site limit).
+	// Where preemption injection pauses a task at a random instant, this pauses
+	// tasks repeatedly at the same few program points, which is what opens a
+	// specific two-statement window wide enough for timers, collectors and
+	// other callers to run complete activities inside it. Needs CapturePC.
+	SlowSiteMod  int
+	SlowSiteSalt uint64
+	SlowSiteNs   int64
+	SlowSiteMax  int
+	SlowSitePer  int
+	SlowSiteCoin int // stall with probability 1/SlowSiteCoin at a slow site (0 = 3)
+	// Jitter: every preemptible operation (lock, file and clock operations) is
+	// followed by a pause of k/8 * JitterNs of simulated time, k in 0..7 a tape
+	// choice. Lock operations otherwise take no simulated time at all, so that
+	// under a latency model a task could never complete a file operation inside
+	// another task's lock-only window; with jitter, all tasks advance at
+	// comparable, randomly varying speeds on the simulated clock and periodic
+	// timers fire in the middle of everything.
+	JitterNs int64
 }
 
 // Op is a request posted by a task at a yield point.
@@ -131,6 +155,10 @@ type World struct {
 	Switches    int
 	Preemptions int
 	Stalls      int // disk stalls injected by the harness's latency model
+	SiteStalls  int // site-directed stalls
+	Jitters     int // jitter pauses
+	slowSites   map[uintptr]bool
+	siteStalled map[uintptr]int
 
 	// Ext lets the other sim packages attach their per-world state.
 	FS any
@@ -486,6 +514,7 @@ func (w *World) grant(t *Task) {
 		// task must not continue. It stays parked; killAll reaps it.
 		return
 	}
+	var park int64
 	if w.Cfg.PreemptEvery > 0 && op != nil && preemptible(op.Kind) {
 		pe := w.Cfg.PreemptEvery
 		if w.Tape.Choose(2, func(r *Rand) int {
@@ -495,18 +524,75 @@ func (w *World) grant(t *Task) {
 			return 0
 		}) == 1 {
 			w.Preemptions++
-			t.op = &Op{Kind: "preempted", WakeAt: w.now + w.Cfg.PreemptNs}
-			// hand the baton back to the scheduler loop: the task stays parked
-			w.cur = nil
-			next := w.pick()
-			if next == nil {
-				return
-			}
-			w.grant(next)
-			return
+			park = w.Cfg.PreemptNs
 		}
 	}
+	if park == 0 && w.Cfg.JitterNs > 0 && op != nil && preemptible(op.Kind) {
+		if k := w.Tape.Choose(8, func(r *Rand) int { return r.Intn(8) }); k > 0 {
+			park = int64(k) * w.Cfg.JitterNs / 8
+			w.Jitters++
+		}
+	}
+	if park == 0 && w.Cfg.SlowSiteMod > 0 && op != nil && op.PC != 0 && w.SiteStalls < w.Cfg.SlowSiteMax && preemptible(op.Kind) && w.slowSite(op.PC) {
+		if w.Cfg.SlowSitePer == 0 || w.siteStalled[op.PC] < w.Cfg.SlowSitePer {
+			coin := w.Cfg.SlowSiteCoin
+			if coin <= 0 {
+				coin = 3
+			}
+			if w.Tape.Choose(2, func(r *Rand) int {
+				if r.Intn(coin) == 0 {
+					return 1
+				}
+				return 0
+			}) == 1 {
+				w.SiteStalls++
+				if w.siteStalled == nil {
+					w.siteStalled = map[uintptr]int{}
+				}
+				w.siteStalled[op.PC]++
+				park = w.Cfg.SlowSiteNs
+			}
+		}
+	}
+	if park > 0 {
+		t.op = &Op{Kind: "preempted", WakeAt: w.now + park, PC: op.PC}
+		// hand the baton back to the scheduler loop: the task stays parked
+		w.cur = nil
+		next := w.pick()
+		if next == nil {
+			return
+		}
+		w.grant(next)
+		return
+	}
 	t.wake <- struct{}{}
+}
+
+// SiteStallCounts returns "site" -> number of stalls (diagnostics).
+func (w *World) SiteStallCounts() map[string]int {
+	out := map[string]int{}
+	for pc, n := range w.siteStalled {
+		out[SiteOf(pc)] += n
+	}
+	return out
+}
+
+// slowSite reports whether the call site of pc is one of this run's slow sites.
+// Scheduler side.
+func (w *World) slowSite(pc uintptr) bool {
+	if v, ok := w.slowSites[pc]; ok {
+		return v
+	}
+	if w.slowSites == nil {
+		w.slowSites = map[uintptr]bool{}
+	}
+	h := w.Cfg.SlowSiteSalt ^ 0xcbf29ce484222325
+	for _, c := range []byte(SiteOf(pc)) {
+		h = (h ^ uint64(c)) * 1099511628211
+	}
+	v := SplitMix(h)%uint64(w.Cfg.SlowSiteMod) == 0
+	w.slowSites[pc] = v
+	return v
 }
 
 func (w *World) recordStuck() {
